@@ -360,7 +360,9 @@ fn expect_err(rep: &mut Report, number: u16, m: &Message, want: &str, class: &st
     }
 }
 
-fn check_type(rep: &mut Report, number: u16, tier: Tier) {
+const PARTS: u32 = 8;
+
+fn check_type(rep: &mut Report, number: u16, tier: Tier, part: u32) {
     let table = sig_table(number);
     let nsig = table.len();
     // signal choices: first, second, a middle, last recognised signal
@@ -368,13 +370,17 @@ fn check_type(rep: &mut Report, number: u16, tier: Tier) {
     gpos.sort();
     gpos.dedup();
     let spos: [u8; 4] = [1, 2, 33, 64];
-    let dim = tier.pick(3usize, 4usize);
+    // quick: 3x3 scope for every type, 4x4 for 1074 and the MSM7 type of every constellation; thorough: 4x4 everywhere
+    let dim = if tier.thorough() || number == 1074 || number % 10 == 7 { 4usize } else { 3usize };
     let gd = dim.min(gpos.len());
     // all non-zero dim x gd incidence matrices
     let nbits = dim * gd;
     watch_enter(0x1000_0000 + number as u64);
     for mat in 1u32..(1u32 << nbits) {
-        if mat % 4096 == 0 {
+        if mat % PARTS != part {
+            continue;
+        }
+        if mat % 4096 < PARTS {
             watch_enter(0x1000_0000 + number as u64);
         }
         let mut cells: Vec<(u8, u8)> = vec![];
@@ -395,6 +401,10 @@ fn check_type(rep: &mut Report, number: u16, tier: Tier) {
             }
         }
         check_triple(rep, number, &sats, &sigs, &cells, 4, "small-scope");
+    }
+    if part != 0 {
+        watch_leave();
+        return;
     }
     // boundary scopes
     let all_sats: Vec<u8> = (1..=64).collect();
@@ -505,9 +515,9 @@ fn check_type(rep: &mut Report, number: u16, tier: Tier) {
 pub fn c10(ctx: &Ctx) -> (Report, Meta) {
     let nums = msm_numbers();
     let tier = ctx.tier;
-    let parts = par_shards(nums.len(), |i| {
+    let parts = par_shards(nums.len() * PARTS as usize, |i| {
         let mut rep = Report::new();
-        check_type(&mut rep, nums[i], tier);
+        check_type(&mut rep, nums[i / PARTS as usize], tier, (i % PARTS as usize) as u32);
         rep
     });
     let mut rep = Report::new();
@@ -520,7 +530,7 @@ pub fn c10(ctx: &Ctx) -> (Report, Meta) {
     let meta = Meta {
         rule: "49 MSM types: every non-zero dim x dim incidence matrix over satellites {1,2,33,64} ({1,33,64} for dim 3) and {first, second, middle, last} recognised signal = every admissible (S,G,C) in that scope; boundary shapes up to 64 cells (full and diagonal cell sets, low/high/spread satellites); the harness writes the frame per the standard (masks at payload bits 73/137/169, row-major cell mask, filled rows), the real decoder must return S ascending and C ascending by (satellite, mask position) with the standard descriptors; the real encoder must reproduce the harness-written masks bit for bit, keep every row with its satellite/cell, and give the identical frame for every explored caller order (all permutations up to 4 elements; identity, reverse, rotate, swaps, interleave above). Invalid classes one at a time must return the matching error. states = (type, S, G, C) triples; transitions = decode/encode calls".into(),
         exhaustive: true,
-        bounds: json!({"small_scope_dim": tier.pick(3,4), "triples_per_type": (1u32 << (tier.pick(3,4)*tier.pick(3,4))) - 1, "permutations":"all for <=4 elements, 6 structured ones above"}),
+        bounds: json!({"small_scope_dim": if tier.thorough() {"4 for all 49 types"} else {"3 for all types, 4 for 1074 and the MSM7 type of each constellation"}, "permutations":"all for <=4 elements, 6 structured ones above"}),
         assumptions: vec!["signal mask positions of the recognised descriptors are the RTCM 10403.3 tables typed into mc-core (also checked by C18)".into()],
     };
     (rep, meta)
